@@ -682,11 +682,61 @@ def doNetOp (p : KParams) (ctx : String) (op : List String) (s : KSt) : Option K
           | _, _ => some (res s "bad-op")
     | _ => none
 
-/-- does the host string parse as an IPv4 (dotted quad) or IPv6 literal? -/
+/-- glibc `inet_pton(AF_INET, …)` (what `make_address_v4` calls): four decimal octets <= 255 separated by
+    single dots, no octet with a leading zero, nothing else. `cur` = value of the octet being read
+    (`none`: no digit of it seen yet), `oct` = octets started. -/
+def v4LitGo : List Char → Option Nat → Nat → Bool
+  | [], _, oct => oct == 4
+  | c :: rest, cur, oct =>
+    if c.isDigit then
+      let d := c.toNat - 48
+      match cur with
+      | none => if oct + 1 > 4 then false else v4LitGo rest (some d) (oct + 1)
+      | some v => if v == 0 then false else if v * 10 + d > 255 then false else v4LitGo rest (some (v * 10 + d)) oct
+    else if c == '.' then
+      match cur with
+      | some _ => if oct == 4 then false else v4LitGo rest none oct
+      | none => false
+    else false
+
+def isV4Literal (cs : List Char) : Bool := v4LitGo cs none 0
+
+/-- the main loop of glibc `inet_pton6`: `curtok` = start of the current group, `xd` = hex digits seen in
+    it, `tp` = bytes stored so far (of 16), `colon` = a `::` was seen. Groups have 1..4 hex digits; one `::`
+    at most (it must stand for at least one group); no single ':' at either end; a '.' makes the current
+    group the start of a trailing dotted quad (4 bytes, must fit). -/
+def v6LitGo : List Char → List Char → Nat → Nat → Bool → Bool
+  | [], _, xd, tp, colon =>
+    if xd > 0 && tp + 2 > 16 then false
+    else
+      let tp := if xd > 0 then tp + 2 else tp
+      if colon then tp != 16 else tp == 16
+  | c :: rest, curtok, xd, tp, colon =>
+    if c.isDigit || ('a' ≤ c && c ≤ 'f') || ('A' ≤ c && c ≤ 'F') then
+      if xd == 4 then false else v6LitGo rest curtok (xd + 1) tp colon
+    else if c == ':' then
+      if xd == 0 then (if colon then false else v6LitGo rest rest 0 tp true)
+      else if rest.isEmpty then false
+      else if tp + 2 > 16 then false
+      else v6LitGo rest rest 0 (tp + 2) colon
+    else if c == '.' then
+      if tp + 4 ≤ 16 && isV4Literal curtok then (if colon then tp + 4 != 16 else tp + 4 == 16) else false
+    else false
+
+/-- glibc `inet_pton(AF_INET6, …)` on a string without scope id (what `make_address_v6` calls) -/
+def isV6Literal (cs : List Char) : Bool :=
+  match cs with
+  | [] => false
+  | ':' :: ':' :: rest => v6LitGo (':' :: rest) (':' :: rest) 0 0 false
+  | ':' :: _ => false
+  | _ => v6LitGo cs cs 0 0 false
+
+/-- does `make_address` / `make_address_v4`-then-`v6` accept the host string (so that no lookup is made)?
+    Exactly glibc's `inet_pton` for both families (validated against the C library on random strings over
+    `0-9a-fA-Fg:.`); strings with a scope id ('%') or a NUL are not generated and count as names. -/
 def isAddrLiteral (s : String) : Bool :=
-  let parts := s.splitOn "."
-  (parts.length == 4 && parts.all (fun x => x.length > 0 && x.length ≤ 3 && x.all Char.isDigit && (x.toNat?.getD 256) < 256))
-    || (s.contains ':' && s.all (fun c => c == ':' || c.isDigit || ('a' ≤ c && c ≤ 'f') || ('A' ≤ c && c ≤ 'F') || c == '.'))
+  let cs := s.toList
+  !(cs.contains '%') && !(cs.contains (Char.ofNat 0)) && (isV4Literal cs || isV6Literal cs)
 
 def resExtra (res : List (String × Nat)) : String :=
   "res=" ++ (if res.isEmpty then "-" else ",".intercalate (res.map (fun e => ({ addr := e.1, port := e.2 } : Ep).toString)))
